@@ -1,1 +1,200 @@
-fn main() {}
+//! mon-import: runtime monitor for C13 "imported chain data converges to the canonical chain under
+//! any roll-backs". See history.rs (oracles), reader.rs (chain-sync model), sut.rs (wiring of the
+//! real importer / streamer / sqlite repositories / signable builders).
+mod history;
+mod node;
+mod oracle;
+mod reader;
+mod sut;
+
+use std::path::{Path, PathBuf};
+use std::sync::atomic::AtomicU64;
+use std::sync::{Arc, Mutex};
+
+use mithril_common::entities::BlockNumber;
+use serde_json::json;
+use vcore::{Monitor, Tier};
+
+use crate::history::History;
+use crate::node::{ChainProfile, Node};
+use crate::sut::{Sut, SutConfig};
+
+fn base_dir() -> PathBuf {
+    let shm = Path::new("/dev/shm");
+    let root = if shm.is_dir() { shm.to_path_buf() } else { std::env::temp_dir() };
+    root.join(format!("verif-c13-{}", std::process::id()))
+}
+
+fn runtime() -> tokio::runtime::Runtime {
+    tokio::runtime::Builder::new_current_thread().enable_all().max_blocking_threads(4).build().expect("tokio runtime")
+}
+
+/// a freshly migrated, empty database file that fresh reference databases are copied from
+fn make_template(dir: &Path) -> Option<PathBuf> {
+    let p = dir.join("template.db");
+    let node = Arc::new(Mutex::new(Node::new(ChainProfile { sparse_numbers: false, empty_block_pct: 0, drought_toggle_pct: 0 })));
+    match Sut::open(&p, &SutConfig::reference(), node, Arc::new(AtomicU64::new(0))) {
+        Ok(s) => {
+            drop(s);
+            Some(p)
+        }
+        Err(e) => {
+            eprintln!("cannot build the template database: {e:#}");
+            None
+        }
+    }
+}
+
+/// Fixed scenario of the design probe, on the real sqlite repositories: consecutive chain of 50
+/// blocks; node B imports to 44; for a few beacons compare the v2 root B offers with the root of a
+/// node that imports exactly to the beacon.
+async fn fixed_probe(mon: &mut Monitor, dir: &Path, template: &Option<PathBuf>) {
+    let mut rng = mon.rng("c13-probe", 0);
+    let mut node = Node::new(ChainProfile { sparse_numbers: false, empty_block_pct: 0, drought_toggle_pct: 0 });
+    node.forward(50, &mut rng);
+    let first = node.at(0).number;
+    let node = Arc::new(Mutex::new(node));
+    let fresh = |name: &str| -> Option<Sut> {
+        let p = dir.join(name);
+        if let Some(t) = template {
+            std::fs::copy(t, &p).ok()?;
+        }
+        Sut::open(&p, &SutConfig::reference(), node.clone(), Arc::new(AtomicU64::new(0))).ok()
+    };
+    let Some(deep) = fresh("probe-deep.db") else {
+        mon.inconclusive("probe: cannot open a database");
+        return;
+    };
+    let depth = first + 43;
+    if let Err(e) = deep.importer.import(BlockNumber(depth)).await {
+        mon.inconclusive(&format!("probe: import failed: {e:#}"));
+        return;
+    }
+    let mut rows = vec![];
+    for b in [14u64, 15, 24, 29, 30, 40, depth] {
+        let Some(exact) = fresh(&format!("probe-{b}.db")) else { continue };
+        let e_v = exact.sign_v2(b).await.unwrap_or_else(|e| format!("error: {e}"));
+        let e_l = exact.sign_legacy(b).await.unwrap_or_else(|e| format!("error: {e}"));
+        let d_v = deep.root_v2(b).await;
+        let d_l = deep.root_legacy(b).await;
+        mon.eval();
+        mon.nontrivial_str(&format!("probe|{b}"));
+        rows.push(json!({"beacon": b, "v2_root_node_imported_to_beacon": e_v, "v2_root_node_imported_to_depth": d_v, "v2_equal": e_v == d_v,
+            "legacy_equal": e_l == d_l, "beacon_mod_15": b % 15}));
+        if e_v != d_v {
+            let partial = b % 15 != 14;
+            let sig = if partial { history::KNOWN_V2 } else { "C13 v2 root depends on import depth although no stored full range root covers a partial beacon" };
+            mon.violation(
+                sig,
+                &format!("fixed probe: consecutive chain of blocks {first}..{}, v2 root at beacon {b}: {e_v} on a node that imported exactly to {b}, {d_v} on a node that imported to {depth}", first + 49),
+                json!({"probe": "consecutive chain, 1 or more transactions per block", "first_block": first, "last_block": first + 49, "beacon": b, "deep_import_target": depth,
+                    "root_exact": e_v, "root_deep": d_v}),
+            );
+        }
+        if e_l != d_l && b % 15 == 14 {
+            mon.violation("C13 legacy root at a range-aligned beacon depends on import depth", &format!("fixed probe: beacon {b}: {e_l} vs {d_l}"), json!({"beacon": b}));
+        }
+        let p = exact.path.clone();
+        drop(exact);
+        let _ = std::fs::remove_file(p);
+    }
+    mon.sample(json!({"fixed_probe": {"chain": format!("blocks {first}..{} consecutive", first + 49), "deep_import_target": depth, "beacons": rows}}));
+    let p = deep.path.clone();
+    drop(deep);
+    let _ = std::fs::remove_file(p);
+}
+
+fn main() {
+    let args = vcore::parse_args();
+    vcore::install_panic_hook();
+    if args.prop != "C13" {
+        eprintln!("mon-import: unknown property {}", args.prop);
+        std::process::exit(2);
+    }
+    let mut mon = Monitor::new(&args);
+    let dir = base_dir();
+    let _ = std::fs::remove_dir_all(&dir);
+    if let Err(e) = std::fs::create_dir_all(&dir) {
+        mon.inconclusive(&format!("cannot create {}: {e}", dir.display()));
+    }
+    let template = make_template(&dir);
+
+    // --replay FILE: re-run one history verbosely
+    if let Some(f) = &args.replay {
+        let doc: serde_json::Value = std::fs::read_to_string(f).ok().and_then(|t| serde_json::from_str(&t).ok()).unwrap_or(json!(null));
+        let r = if doc.get("replay").is_some() { &doc["replay"] } else { &doc };
+        let (Some(seed), Some(shard), Some(index)) = (r["seed"].as_u64(), r["shard"].as_u64(), r["history"].as_u64()) else {
+            eprintln!("replay file has no seed/shard/history");
+            let _ = std::fs::remove_dir_all(&dir);
+            std::process::exit(2);
+        };
+        let mut m = Monitor::with("C13", args.tier, seed);
+        runtime().block_on(async {
+            let mut h = History::new(&mut m, &dir, template.clone(), shard, index, true);
+            h.run().await;
+        });
+        let _ = std::fs::remove_dir_all(&dir);
+        m.finish("replay of a single history", &[], 0);
+    }
+
+    match sut::flavours_identical() {
+        Some(true) => {
+            mon.extra.insert("aggregator_and_signer_ChainDataStore_impls_textually_identical".into(), json!(true));
+        }
+        Some(false) => {
+            mon.extra.insert("aggregator_and_signer_ChainDataStore_impls_textually_identical".into(), json!(false));
+            mon.inconclusive("the aggregator's impl ChainDataStore no longer equals the signer's: the aggregator flavour is not represented by this harness any more");
+        }
+        None => {
+            mon.extra.insert("aggregator_and_signer_ChainDataStore_impls_textually_identical".into(), json!("could not be checked"));
+        }
+    }
+
+    runtime().block_on(fixed_probe(&mut mon, &dir, &template));
+
+    let (shards, per, budget_s): (u64, u64, f64) = match args.tier {
+        Tier::Quick => (16, 19, 100.0),
+        Tier::Thorough => (64, 190, 35.0 * 60.0),
+    };
+    let start = std::time::Instant::now();
+    let dir2 = dir.clone();
+    let template2 = template.clone();
+    vcore::run_shards(&mut mon, shards, vcore::default_threads(), |shard, m| {
+        let sdir = dir2.join(format!("s{shard}"));
+        let _ = std::fs::create_dir_all(&sdir);
+        let rt = runtime();
+        for index in 0..per {
+            if start.elapsed().as_secs_f64() > budget_s {
+                m.count("histories skipped: time budget");
+                continue;
+            }
+            let r = vcore::catch(|| {
+                rt.block_on(async {
+                    let mut h = History::new(m, &sdir, template2.clone(), shard, index, false);
+                    h.run().await;
+                })
+            });
+            if let Err(p) = r {
+                // a panic inside the code under test or the harness: reported, never silently dropped
+                m.violation("C13 panic while importing", &format!("history (shard {shard}, index {index}) panicked: {p}"), json!({"seed": m.seed, "shard": shard, "history": index, "panic": p}));
+            }
+        }
+        let _ = std::fs::remove_dir_all(&sdir);
+    });
+    let _ = std::fs::remove_dir_all(&dir);
+
+    mon.finish(
+        "histories = seeded random sequences of (forward batch 1-40 | roll-back to: any earlier point, shallow, origin, first stored block, before the first stored block, highest stored block +-1, a block next to a 15-block range boundary, last import target | import(target <= tip) through the plain importer / the legacy / the v2 signable builder, targets: tip, near tip, above the highest stored block, range boundary +-1, at or below the highest stored block | import with a re-organisation of the node while the streamer polls | restart (database re-opened, new importer, new chain-sync connection) | connection lost | explicit prune 0-60) over a simulated node (fork tree; consecutive or gapped block numbers, sparse slots, transaction droughts, re-included transactions), ended by an import up to the tip; system under test = real CardanoChainDataImporter (+ByChunk/WithPruner for the signer flavour) + real CardanoBlockScanner/ChainReaderBlockStreamer + real file-backed sqlite repository + real signable builders, fed by a chain-sync server model. Oracle 1: tables == tables of a fresh importer on a fresh database importing the current canonical chain once to the same target (see history.rs for the early-return case); oracle 2: roots at <=9 beacons per import == roots of a fresh node at the same depth == roots of a fresh node that imported exactly to the beacon. Non-trivial = an import check preceded by at least one perturbation (roll-back that touches stored blocks, restart, lost connection, prune, non-monotone target, mid-import re-organisation), distinct by (configuration, event sequence so far); plus every (chain prefix, import depth > beacon, beacon) triple judged by oracle 2.",
+        &[
+            "chain-sync model of reader.rs stands for a Cardano node + PallasChainReader (follower semantics of ouroboros-consensus, pallas client agency rules); the node never re-adopts an abandoned fork",
+            "import targets are <= the node's tip at the time of the call",
+            "the reference (fresh importer on a fresh database) is the real code itself, run without perturbation",
+            "legacy beacons are judged only when = 14 mod 15 (the only values compute_block_number_to_be_signed produces)",
+            "aggregator flavour = signer repository type with the aggregator's connection options (the two ChainDataStore impls are textually identical, checked at start-up)",
+        ],
+        match args.tier {
+            Tier::Quick => 150,
+            Tier::Thorough => 3000,
+        },
+    );
+}
